@@ -85,6 +85,28 @@ func checkC14(c *an.Ctx) {
 	}
 
 	downRules(c, r, "C14.5")
+
+	// C14.8: a context's hook lists are what the configuration declares, once. Imported documents are merged
+	// with mergo.WithAppendSlice, so a file that is loaded twice (a visited mark under another name than the one
+	// looked up, an import resolved against the wrong directory) contributes its up/down/before/after commands
+	// twice — each then runs twice per use, behind the very Once guards that are supposed to prevent it. The
+	// clauses that make every file count once are C17.1 and C17.3; they are obligations of C14 too.
+	c.Rule("C14.8", "hook lists are declared once (= C17.1 + C17.3): every configuration file reachable through imports is loaded at most once per load and from the location the import names, so the append-merge of imported documents cannot repeat a context's up/down/before/after commands")
+	sub := an.NewCtx("C17", c.P)
+	checkC17(sub)
+	nSub := 0
+	for _, o := range sub.Obs {
+		if o.Rule != "C17.1" && o.Rule != "C17.3" && o.Rule != "C17.0" {
+			continue
+		}
+		nSub++
+		o.Rule = "C14.8"
+		o.Construct = "[" + "imports" + "] " + o.Construct
+		c.Obs = append(c.Obs, o)
+	}
+	if nSub == 0 {
+		c.Und("C14.8", "loader:imports", token.NoPos, "the import clauses of the loader produced no obligation")
+	}
 }
 
 func onceGuards(c *an.Ctx, rule string) {
